@@ -72,7 +72,7 @@ fn plan_key(p: &mut Planner, primaries: &[&str], subs: &[&str]) -> Value {
         _ => json!({"now": 1_750_000_000u32, "step": 0}),
     };
     json!({"v6": v6, "primary": *p.pick(primaries), "can_sign": p.chance(3,4), "can_auth": p.chance(1,5), "subkeys": subkeys,
-           "locked": p.chance(1,4), "uids": p.below(4), "prefs": p.chance(1,2), "seipd2": p.chance(1,2),
+           "locked": p.chance(1,4), "uids": p.below(4), "attrs": if p.chance(1,4) { p.range(1, 2) } else { 0 }, "prefs": p.chance(1,2), "seipd2": p.chance(1,2),
            "explicit_created": p.chance(1,3), "bias": p.chance(1,2), "rng_key": p.u64(), "clock": clock,
            "sink_sched": p.sched().to_json(), "src_sched": p.sched().to_json(), "cap": *p.pick(&[1usize, 5, 64, 8192])})
 }
@@ -137,6 +137,17 @@ fn build_params(plan: &Value) -> Result<pgp::composed::SecretKeyParams, String> 
         for i in 1..uids {
             b.user_id(format!("Alias {i} <alias{i}@example.org>"));
         }
+    }
+    let attrs = jusize(plan, "attrs");
+    if attrs > 0 {
+        b.user_attributes(
+            (0..attrs)
+                .map(|i| {
+                    let img: Vec<u8> = (0..(40 + 900 * i) as u32).map(|x| (x * 13 + i as u32) as u8).collect();
+                    pgp::packet::UserAttribute::new_image(img.into()).map_err(|e| e.to_string())
+                })
+                .collect::<Result<Vec<_>, _>>()?,
+        );
     }
     if jbool(plan, "prefs") {
         b.preferred_symmetric_algorithms(SmallVec::from_slice(&[SymmetricKeyAlgorithm::AES256, SymmetricKeyAlgorithm::AES128]))
@@ -242,6 +253,9 @@ fn run_keygen(plan: &Value, rec: &mut Rec) {
                     return fail("back-signature", format!("signing subkey #{i} has no embedded primary-key binding signature"));
                 }
             }
+        }
+        if public.details.user_attributes.len() != jusize(plan, "attrs") {
+            return fail("user-attributes", format!("{} user attributes requested, {} present in the certificate", jusize(plan, "attrs"), public.details.user_attributes.len()));
         }
         // 2. export / import
         for armored in [false, true] {
